@@ -838,3 +838,114 @@ def jump_context_programs(max_depth=2, cap=None, rng=None, info=None):
         prng = random.Random(ix * 7919 + 13)
         yield Program(PRELUDE + src, [(1, 2, 3)], set(path) | {jump, loopkind, 'jumpctx'}, 'jumpctx',
                       decisions=decision_vectors(prng, 8, length=10), meta={'index': ix})
+
+
+# -------------------------------------------------------------------------------------------------
+# raise/handler family and binding-construct scenarios (small, exhaustive)
+# -------------------------------------------------------------------------------------------------
+def raise_handler_space():
+    out = []
+    for hi in ('E1', 'E2'):
+        for ho in ('E1', 'E2', 'E1E2'):
+            for r1 in ('E1', 'E2'):
+                for r2 in (None, 'E1', 'E2'):
+                    for r3 in (None, 'E1', 'E2'):
+                        for fin in (False, True):
+                            for loop in (False, True):
+                                out.append((hi, ho, r1, r2, r3, fin, loop))
+    return out
+
+
+def _raise_handler_program(hi, ho, r1, r2, r3, fin, loop):
+    L = ['def f(a, b, c):', '    x = a', '    y = b']
+    ind = '    '
+    if loop:
+        L.append(ind + 'for i in n():'); ind += '    '
+    L += [ind + 'try:',
+          ind + '    x = tr(1, x)',
+          ind + '    try:',
+          ind + '        x = tr(2, x)',
+          ind + '        if d():',
+          ind + '            raise %s(tr(3))' % r1,
+          ind + '        x = tr(4, x)',
+          ind + '    except %s:' % hi,
+          ind + '        x = tr(5, x)']
+    if r2:
+        L += [ind + '        if d():', ind + '            raise %s(tr(6))' % r2]
+    L += [ind + '    x = tr(7, x)']
+    if r3:
+        L += [ind + '    if d():', ind + '        raise %s(tr(8))' % r3]
+    L += [ind + '    x = tr(9, x)']
+    if ho == 'E1E2':
+        L += [ind + 'except E1:', ind + '    y = tr(10, x)', ind + 'except E2:', ind + '    y = tr(11, x, y)']
+    else:
+        L += [ind + 'except %s:' % ho, ind + '    y = tr(10, x)']
+    if fin:
+        L += [ind + 'finally:', ind + '    y = tr(12, x, y)']
+    L += ['    return tr(0, x, y)']
+    return '\n'.join(L) + '\n'
+
+
+def raise_handler_programs(info=None):
+    """Exhaustive small family: nested try statements, inner/outer handler kinds, explicit raises of either kind in the
+    inner body, the inner handler and the outer body, with/without finally, inside/outside a loop; the variable is
+    written before each raise and read in every handler (432 programs)."""
+    space = raise_handler_space()
+    if info is not None:
+        info['raise_handler_space'] = len(space)
+    for ix, t in enumerate(space):
+        prng = random.Random(ix * 31 + 5)
+        yield Program(PRELUDE + _raise_handler_program(*t), [(1, 2, 3)], {'try', 'raise', 'nested_try', 'raisefam'}, 'raisefam',
+                      decisions=[[0] * 8, [1] * 8, [1, 0, 0, 1, 0, 0, 1, 0], [2, 1, 0, 1, 1, 0, 0, 1], [0, 1, 1, 0, 0, 1, 1, 0],
+                                 [prng.randrange(3) for _ in range(8)]], meta={'index': ix})
+
+
+BINDING_SCENARIOS = [
+    # (name, statement(s) using v as BOTH an outer read and an inner binding; r receives a value)
+    ('listcomp_target_shadows_iter', 'r = [v * 2 for v in v]'),
+    ('setcomp_target_shadows_iter', 'r = sorted({v + 1 for v in v})'),
+    ('dictcomp_target_shadows_iter', 'r = sorted({v: v for v in v}.items())'),
+    ('genexp_target_shadows_iter', 'r = sum(v for v in v)'),
+    ('nested_comp_inner_iter_reads_outer_target', 'r = [q for v in [v] for q in v]'),
+    ('comp_condition_reads_target', 'r = [q for q in v if q > 0]'),
+    ('comp_second_iter_reads_enclosing', 'r = [p + q for p in [1, 2] for q in v]'),
+    ('lambda_param_shadows', 'r = (lambda v: v)(v)'),
+    ('lambda_default_reads_enclosing', 'r = (lambda p=v: p)()'),
+    ('nested_def_param_shadows', 'def g(v):\n    return v\nr = g(v)'),
+    ('nested_def_default_reads_enclosing', 'def g(p=v):\n    return p\nr = g()'),
+    ('nested_def_closure_read', 'def g():\n    return v\nr = g()'),
+    ('walrus_in_comp_element', 'r = [(w := q) for q in v] + [w]'),
+    ('for_iter_shadows_target', 'r = []\nfor v in v:\n    r.append(v)'),
+    ('with_as_rebinds', 'with cm(1) as k:\n    r = (k, v)'),
+    ('augassign_reads', 'v += [9]\nr = v'),
+    ('tuple_target_swap', 'v, r = [0], v'),
+    ('starred_target', 'r, *v = v'),
+    ('subscript_store_reads_base', 'v[0] = 5\nr = v'),
+    ('call_kwarg_reads', 'r = tr(2, x=v) if False else tr(2, v)'),
+    ('fstring_reads', "r = f'{v}'"),
+    ('conditional_expr_reads', 'r = v if d() else [0]'),
+    ('boolop_reads', 'r = d() and v'),
+    ('slice_reads', 'r = v[0:1]'),
+    ('delete_then_rebind', 'r = v\ndel v\nv = [3]'),
+    ('global_decl_elsewhere', 'r = v + [G]'),
+    ('class_body_reads', 'class K(object):\n    z = v\nr = K.z'),
+]
+
+
+def binding_scenario_programs():
+    """For every binding construct: the enclosing variable `v` is conditionally re-assigned inside a branch and in a loop
+    just before a statement that reads it in an 'outer-evaluated' position while binding the same (or another) name in an
+    inner scope, and is NOT read afterwards — so the statement is the only thing keeping `v` live / the only consumer of
+    its reaching definitions."""
+    for name, stmt in BINDING_SCENARIOS:
+        for wrap in ('if', 'for', 'plain'):
+            body = stmt.split('\n')
+            L = ['def f(a, b, c):', '    v = [a, b]']
+            if wrap == 'if':
+                L += ['    if d():', '        v = [tr(1, c), 4]']
+            elif wrap == 'for':
+                L += ['    for i in n():', '        v = [tr(1, i), 5]']
+            L += ['    ' + l for l in body]
+            L += ['    return tr(0, r)']
+            yield Program(PRELUDE + '\n'.join(L) + '\n', [(1, 2, 3), (0, -1, 2)], {'binding', name, wrap}, 'binding',
+                          decisions=[[0, 0, 0], [1, 1, 1], [2, 0, 1]], meta={'scenario': name})
